@@ -36,19 +36,19 @@ CONFIGS: Dict[str, Dict[str, List[Dict[str, Any]]]] = {
         "thorough": [_c("default"), _c("b2", board_size=2), _c("b3", board_size=3), _c("b5", board_size=5), _c("b6", board_size=6, deep=["plan", 9000])],
     },
     "GraphColoring": {
-        "quick": [_c("default"), _c("n6p5", num_nodes=6, edge_probability=0.5)],
+        "quick": [_c("default"), _c("n6p5", num_nodes=6, edge_probability=0.5), _c("n40p3", num_nodes=40, edge_probability=0.3)],
         "thorough": [
             _c("default"), _c("n2p5", num_nodes=2, edge_probability=0.5), _c("n5p1", num_nodes=5, edge_probability=0.1),
             _c("n6p5", num_nodes=6, edge_probability=0.5), _c("n5p9", num_nodes=5, edge_probability=0.9),
-            _c("n20p5", num_nodes=20, edge_probability=0.5), _c("n135big", num_nodes=135, edge_probability=0.05, light=140)
+            _c("n20p5", num_nodes=20, edge_probability=0.5), _c("n135big", num_nodes=135, edge_probability=0.05, light=140), _c("n40p3", num_nodes=40, edge_probability=0.3)
         ],
     },
     "Minesweeper": {
-        "quick": [_c("default"), _c("r3c7m5", rows=3, cols=7, mines=5), _c("r4c5m3rw", rows=4, cols=5, mines=3, rewards=[2.0, -3.0, -5.0]), _c("r5c4m4rwint", rows=5, cols=4, mines=4, rewards=[2, -3, -5]), _c("cu_done_never", custom="done_never", rows=4, cols=5, mines=3, props=["C02", "C03"]), _c("cu_done_always", custom="done_always", rows=4, cols=5, mines=3, props=["C01", "C02", "C03"]), _c("cu_pyreward", custom="pyreward", rows=4, cols=5, mines=3, props=["C01", "C02", "C03"])],
+        "quick": [_c("default"), _c("r3c7m5", rows=3, cols=7, mines=5), _c("r4c5m3rw", rows=4, cols=5, mines=3, rewards=[2.0, -3.0, -5.0]), _c("r5c4m4rwint", rows=5, cols=4, mines=4, rewards=[2, -3, -5]), _c("cu_done_never", custom="done_never", rows=4, cols=5, mines=3, props=["C02", "C03"]), _c("cu_done_always", custom="done_always", rows=4, cols=5, mines=3, props=["C01", "C02", "C03"]), _c("cu_pyreward", custom="pyreward", rows=4, cols=5, mines=3, props=["C01", "C02", "C03"]), _c("r16c17m40", rows=16, cols=17, mines=40, props=["C10", "C07", "C01"])],
         "thorough": [
             _c("default"), _c("r2c2m1", rows=2, cols=2, mines=1), _c("r3c7m5", rows=3, cols=7, mines=5),
             _c("r6c4m23", rows=6, cols=4, mines=23),
-            _c("r4c5m3rw", rows=4, cols=5, mines=3, rewards=[2.0, -3.0, -5.0]), _c("r5c4m4rwint", rows=5, cols=4, mines=4, rewards=[2, -3, -5]), _c("cu_done_never", custom="done_never", rows=4, cols=5, mines=3, props=["C02", "C03"]), _c("cu_done_always", custom="done_always", rows=4, cols=5, mines=3, props=["C01", "C02", "C03"]), _c("cu_pyreward", custom="pyreward", rows=4, cols=5, mines=3, props=["C01", "C02", "C03"]), _c("cu_done_mixed", custom="done_mixed", rows=4, cols=5, mines=3, props=["C01", "C02", "C03"]), _c("r16c17m40big", rows=16, cols=17, mines=40, light=240)
+            _c("r4c5m3rw", rows=4, cols=5, mines=3, rewards=[2.0, -3.0, -5.0]), _c("r5c4m4rwint", rows=5, cols=4, mines=4, rewards=[2, -3, -5]), _c("cu_done_never", custom="done_never", rows=4, cols=5, mines=3, props=["C02", "C03"]), _c("cu_done_always", custom="done_always", rows=4, cols=5, mines=3, props=["C01", "C02", "C03"]), _c("cu_pyreward", custom="pyreward", rows=4, cols=5, mines=3, props=["C01", "C02", "C03"]), _c("cu_done_mixed", custom="done_mixed", rows=4, cols=5, mines=3, props=["C01", "C02", "C03"]), _c("r16c17m40big", rows=16, cols=17, mines=40, light=240), _c("r16c17m40", rows=16, cols=17, mines=40, props=["C10", "C07", "C01"])
         ],
     },
     "RubiksCube": {
@@ -79,7 +79,7 @@ CONFIGS: Dict[str, Dict[str, List[Dict[str, Any]]]] = {
                   # user-defined container sizes (smaller and not proportional to the 20-ft default), CSV and random instances
                   _c("csvbox", gen="csv", max_ems=30, obs_num_ems=30, container=[1200, 800, 1000], debug=True),
                   _c("r8e12cube", gen="random", max_items=8, max_ems=12, split_same=2, obs_num_ems=12, container=[700, 700, 700], debug=True),
-                  _c("r16e24s7", gen="random", max_items=16, max_ems=24, split_same=7, obs_num_ems=24, debug=True, c10_keys={"quick": 1500, "thorough": 6000}), _c("csvloose", gen="csvloose", max_ems=40, obs_num_ems=40, debug=True), _c("csvloosesparse", gen="csvloose", max_ems=40, obs_num_ems=20, reward="sparse", container=[3000, 2000, 2000], debug=True)],
+                  _c("r16e24s7", gen="random", max_items=16, max_ems=24, split_same=7, obs_num_ems=24, debug=True, c10_keys={"quick": 1500, "thorough": 6000}), _c("csvloose", gen="csvloose", max_ems=40, obs_num_ems=40, debug=True), _c("csvloosesparse", gen="csvloose", max_ems=40, obs_num_ems=20, reward="sparse", container=[3000, 2000, 2000], debug=True), _c("r12e30tallraw", gen="random", max_items=12, max_ems=30, split_same=3, obs_num_ems=30, container=[1000, 1200, 2000], normalize=False, debug=True)],
         "thorough": [
             _c("default"), _c("r10e12o5", gen="random", max_items=10, max_ems=12, split_same=2, obs_num_ems=5, debug=True),
             _c("r10e12o5nonorm", gen="random", max_items=10, max_ems=12, split_same=2, obs_num_ems=5, normalize=False, debug=True),
@@ -91,7 +91,7 @@ CONFIGS: Dict[str, Dict[str, List[Dict[str, Any]]]] = {
             _c("r8e12cube", gen="random", max_items=8, max_ems=12, split_same=2, obs_num_ems=12, container=[700, 700, 700], debug=True),
             _c("csvlong", gen="csv", max_ems=30, obs_num_ems=10, container=[9000, 1500, 1200], normalize=False, debug=True),
             _c("r16e24s7", gen="random", max_items=16, max_ems=24, split_same=7, obs_num_ems=24, debug=True, c10_keys={"quick": 1500, "thorough": 6000}),
-            _c("r24e30s12", gen="random", max_items=24, max_ems=30, split_same=12, obs_num_ems=30, debug=True), _c("cu_pyreward", custom="pyreward", props=["C01", "C02", "C03"]), _c("csvloose", gen="csvloose", max_ems=40, obs_num_ems=40, debug=True), _c("csvloosesparse", gen="csvloose", max_ems=40, obs_num_ems=20, reward="sparse", container=[3000, 2000, 2000], debug=True)
+            _c("r24e30s12", gen="random", max_items=24, max_ems=30, split_same=12, obs_num_ems=30, debug=True), _c("cu_pyreward", custom="pyreward", props=["C01", "C02", "C03"]), _c("csvloose", gen="csvloose", max_ems=40, obs_num_ems=40, debug=True), _c("csvloosesparse", gen="csvloose", max_ems=40, obs_num_ems=20, reward="sparse", container=[3000, 2000, 2000], debug=True), _c("r12e30tallraw", gen="random", max_items=12, max_ems=30, split_same=3, obs_num_ems=30, container=[1000, 1200, 2000], normalize=False, debug=True)
         ],
     },
     "FlatPack": {
@@ -160,7 +160,7 @@ CONFIGS: Dict[str, Dict[str, List[Dict[str, Any]]]] = {
     "LevelBasedForaging": {
         "quick": [_c("default"), _c("g6a3f2v2gridL7", grid_size=6, agents=3, food=2, fov=2, grid_obs=True, time_limit=7),
                   _c("g6a3f2v1L20", grid_size=6, agents=3, food=2, fov=1, time_limit=20),
-                  _c("g6a2f2v6rawpenintL15", grid_size=6, agents=2, food=2, fov=6, normalize=False, penalty=1, time_limit=15), _c("g8a2f6v8L30", grid_size=8, agents=2, food=6, fov=8, time_limit=30, c10_keys={"quick": 3000, "thorough": 12000}), _c("g10a3f12v3L30", grid_size=10, agents=3, food=12, fov=3, time_limit=30), _c("g8a3f2v8ml3L12", grid_size=8, agents=3, food=2, fov=8, max_level=3, time_limit=12), _c("g8a3f3v3ml4coopL12", grid_size=8, agents=3, food=3, fov=3, max_level=4, force_coop=True, time_limit=12), _c("g6a2f2v2gridL40", grid_size=6, agents=2, food=2, fov=2, grid_obs=True, time_limit=40), _c("g6a2f2v6L41", grid_size=6, agents=2, food=2, fov=6, time_limit=41)],
+                  _c("g6a2f2v6rawpenintL15", grid_size=6, agents=2, food=2, fov=6, normalize=False, penalty=1, time_limit=15), _c("g8a2f6v8L30", grid_size=8, agents=2, food=6, fov=8, time_limit=30, c10_keys={"quick": 3000, "thorough": 12000}), _c("g10a3f12v3L30", grid_size=10, agents=3, food=12, fov=3, time_limit=30), _c("g8a3f2v8ml3L12", grid_size=8, agents=3, food=2, fov=8, max_level=3, time_limit=12), _c("g8a3f3v3ml4coopL12", grid_size=8, agents=3, food=3, fov=3, max_level=4, force_coop=True, time_limit=12), _c("g6a2f2v2gridL40", grid_size=6, agents=2, food=2, fov=2, grid_obs=True, time_limit=40), _c("g6a2f2v6L41", grid_size=6, agents=2, food=2, fov=6, time_limit=41), _c("g10a2f4v3L30", grid_size=10, agents=2, food=4, fov=3, time_limit=30)],
         "thorough": [
             _c("default"), _c("g5a1f1v1L3", grid_size=5, agents=1, food=1, fov=1, time_limit=3),
             _c("g6a3f2v2gridL7", grid_size=6, agents=3, food=2, fov=2, grid_obs=True, time_limit=7),
@@ -172,7 +172,7 @@ CONFIGS: Dict[str, Dict[str, List[Dict[str, Any]]]] = {
             _c("g6a3f2v1L20", grid_size=6, agents=3, food=2, fov=1, time_limit=20),
             # constructor arguments given as Python ints where floats are documented (dtype promotion paths)
             _c("g6a2f2v6rawpenintL15", grid_size=6, agents=2, food=2, fov=6, normalize=False, penalty=1, time_limit=15),
-            _c("g6a2f2v2gridpenint", grid_size=6, agents=2, food=2, fov=2, grid_obs=True, penalty=2, time_limit=25), _c("mk_L5", make_id="LevelBasedForaging-v0", time_limit=5), _c("g8a2f6v8L30", grid_size=8, agents=2, food=6, fov=8, time_limit=30, c10_keys={"quick": 3000, "thorough": 12000}), _c("g10a3f12v3L30", grid_size=10, agents=3, food=12, fov=3, time_limit=30), _c("g6a2f2v6L6np", grid_size=6, agents=2, food=2, fov=6, time_limit=6, tl_type="np.int64"), _c("g8a3f2v8ml3L12", grid_size=8, agents=3, food=2, fov=8, max_level=3, time_limit=12), _c("g8a3f3v3ml4coopL12", grid_size=8, agents=3, food=3, fov=3, max_level=4, force_coop=True, time_limit=12), _c("g6a2f2v2gridL40", grid_size=6, agents=2, food=2, fov=2, grid_obs=True, time_limit=40), _c("g6a2f2v6L41", grid_size=6, agents=2, food=2, fov=6, time_limit=41)
+            _c("g6a2f2v2gridpenint", grid_size=6, agents=2, food=2, fov=2, grid_obs=True, penalty=2, time_limit=25), _c("mk_L5", make_id="LevelBasedForaging-v0", time_limit=5), _c("g8a2f6v8L30", grid_size=8, agents=2, food=6, fov=8, time_limit=30, c10_keys={"quick": 3000, "thorough": 12000}), _c("g10a3f12v3L30", grid_size=10, agents=3, food=12, fov=3, time_limit=30), _c("g6a2f2v6L6np", grid_size=6, agents=2, food=2, fov=6, time_limit=6, tl_type="np.int64"), _c("g8a3f2v8ml3L12", grid_size=8, agents=3, food=2, fov=8, max_level=3, time_limit=12), _c("g8a3f3v3ml4coopL12", grid_size=8, agents=3, food=3, fov=3, max_level=4, force_coop=True, time_limit=12), _c("g6a2f2v2gridL40", grid_size=6, agents=2, food=2, fov=2, grid_obs=True, time_limit=40), _c("g6a2f2v6L41", grid_size=6, agents=2, food=2, fov=6, time_limit=41), _c("g10a2f4v3L30", grid_size=10, agents=2, food=4, fov=3, time_limit=30)
         ],
     },
     "Maze": {
